@@ -70,6 +70,13 @@ def maps(mg, mf):
         if mo[k] is None or (mi[k] is None and not is_gnd(p)):
             raise MapFailure('pulse %d of the ground model (point %s, far ends %s / %s) has no counterpart in the free-space pair of '
                              'antenna and mirror image' % (k + 1, list(_fl(p.point)), list(_fl(p.ends[0])), list(_fl(p.ends[1]))))
+    # and the other way round: every pulse of antenna + image is the original, the image or the on-plane pulse of some pulse over
+    # ground (a wire that ends on the plane must be continued into its image there)
+    covered = {x[0] for x in mo if x} | {x[0] for x in mi if x}
+    for q in mf.pulses:
+        if q.idx not in covered:
+            raise MapFailure('pulse %d of antenna + image (point %s) has no counterpart over ground: a wire end on the ground plane is not '
+                             'continued into its image' % (q.idx + 1, list(_fl(q.point))))
     return mo, mi
 
 
@@ -431,13 +438,13 @@ def main(args):
     ck = Check('C03', args)
     ck.shadow_stats = symx.load().stats
     if ck.tier == 'quick':
-        parts = [('blocks', (g, 1)) for g in ('G7', 'G8', 'G9', 'G10', 'G14', 'G16')]
+        parts = [('blocks', (g, 1)) for g in ('G7', 'G8', 'G9', 'G10', 'G14', 'G16', 'G23')]
         parts += [('blocks', (g, 1, True)) for g in ('G8', 'G16')]
         parts += [('rhs_loads', (g,)) for g in ('G8', 'G9')]
         parts += [('two_sources', (g,)) for g in ('G8', 'G9')]
         parts += [('far', (g,)) for g in ('G8', 'G9', 'G14')]
     else:
-        parts = [('blocks', (g, 2)) for g in ('G7', 'G8', 'G9', 'G10', 'G14', 'G15', 'G16')]
+        parts = [('blocks', (g, 2)) for g in ('G7', 'G8', 'G9', 'G10', 'G14', 'G15', 'G16', 'G23')]
         parts += [('blocks', (g, 1, True)) for g in ('G7', 'G8', 'G9', 'G15', 'G16')]
         parts += [('rhs_loads', (g,)) for g in ('G7', 'G8', 'G9', 'G10', 'G14', 'G16')]
         parts += [('two_sources', (g,)) for g in ('G7', 'G8', 'G9', 'G10', 'G16')]
